@@ -1,7 +1,7 @@
 (* C02 -- TrueType outlines render the source shape; composites stay valid. *)
 From Coq Require Import QArith Qcanon.
 From U2F Require Import Base.Prelude Geometry.Model Geometry.ModelProofs Geometry.Cff Geometry.Filters
-     Geometry.FiltersProofs Geometry.TT Geometry.TTProofs.
+     Geometry.FiltersProofs Geometry.TT Geometry.TTProofs Geometry.FlattenProofs.
 Open Scope Qc_scope.
 
 (* glyphs mixing contours with components are decomposed: none is left *)
@@ -35,3 +35,12 @@ Theorem C02_rounding_half_up : forall q,
   (inject_Z (otRound q) - (1 # 2) <= this q)%Q /\ (this q < inject_Z (otRound q) + (1 # 2))%Q.
 Proof. exact otRound_half_up. Qed.
 Print Assumptions C02_rounding_half_up.
+
+(* FlattenComponentsFilter (nested references replaced by references to the leaves, matrices composed):
+   whenever it succeeds, the flattened glyph resolves -- with the same fuel -- to exactly the same list of
+   contours; for every glyph set with non-singular component matrices and closed contours, any depth *)
+Theorem C02_flattening_preserves_rendering : forall gs g g',
+  wf_glyphset_P gs -> wf_glyph_P g -> flatten_glyph gs g = Some g' ->
+  forall F r, resolve F gs g = Some r -> resolve F gs g' = Some r.
+Proof. exact flatten_render. Qed.
+Print Assumptions C02_flattening_preserves_rendering.
